@@ -99,6 +99,11 @@ def check(case):
         if len(set(len(x) for x in srows)) != 1:
             return engine.violation({"what": "snapshot rows of node %d have unequal lengths" % sn["node"],
                                      "lens": sorted(set(len(x) for x in srows))}, classes=cl)
+        if len(set(len(x) for x in frows)) != 1:
+            return engine.violation({"what": "final rows of the members of node %d have unequal lengths" % sn["node"],
+                                     "lens": sorted(set(len(x) for x in frows))[:5]}, classes=cl)
+        if [x.replace("-", "") for x in frows] != [seqs[m["rank"]] for m in mem]:
+            return engine.violation({"what": "final rows of node %d do not spell the input sequences (C01)" % sn["node"]}, classes=cl)
         proj = oracle.strip_common_gap_columns(frows)
         snap = oracle.strip_common_gap_columns(srows)
         if proj != snap:
